@@ -83,6 +83,9 @@ theorem lookup_spec_param (enc encStd : Bytes → String) (mat : KeyMaterial) (P
   have h10 : name ≠ "dq" := by rintro rfl; simp at hn
   have h11 : name ≠ "qi" := by rintro rfl; simp at hn
   have h12 : name ≠ "k" := by rintro rfl; simp at hn
+  have h13 : name ≠ "oth" := by rintro rfl; simp at hn
+  have hoth : ∀ l, Wire.lookup name (othMember enc l) = none := by
+    intro l; unfold othMember; split <;> simp [Wire.lookup, mOth, h13]
   have hmat : Wire.lookup name (materialMembers enc mat) = none := by
     cases mat with
     | ec crv x y d => simp [materialMembers, lookup_append, lookup_optMember, Wire.lookup, mCrv, mX, mY, mD, h1, h2, h3, h4]
@@ -91,10 +94,10 @@ theorem lookup_spec_param (enc encStd : Bytes → String) (mat : KeyMaterial) (P
       | none => simp [materialMembers, Wire.lookup, mN, mE, h5, h6]
       | some r =>
         cases hc : r.crt with
-        | none => simp [materialMembers, lookup_append, Wire.lookup, mN, mE, mD, mP, mQ, h4, h5, h6, h7, h8, hc]
+        | none => simp [materialMembers, lookup_append, Wire.lookup, mN, mE, mD, mP, mQ, h4, h5, h6, h7, h8, hc, hoth]
         | some t =>
           obtain ⟨dp, dq, qi⟩ := t
-          simp [materialMembers, lookup_append, Wire.lookup, mN, mE, mD, mP, mQ, mDP, mDQ, mQI, h4, h5, h6, h7, h8, h9, h10, h11, hc]
+          simp [materialMembers, lookup_append, Wire.lookup, mN, mE, mD, mP, mQ, mDP, mDQ, mQI, h4, h5, h6, h7, h8, h9, h10, h11, hc, hoth]
     | okp crv x d => simp [materialMembers, lookup_append, lookup_optMember, Wire.lookup, mCrv, mX, mD, h1, h2, h4]
     | oct k => simp [materialMembers, Wire.lookup, mK, h12]
   simp [specEncode, Wire.lookup, mKty, hk, lookup_append, hmat]
